@@ -623,16 +623,22 @@ func builtinIntercepts() map[string]intercept {
 	for _, ty := range []string{"Int32", "Int64", "Uint32", "Uint64", "Uintptr"} {
 		m["sync/atomic.Load"+ty] = func(x *Exec, fn *ssa.Function, args []Value) []Value {
 			p := args[0].(Pointer)
+			x.atomicOp = true
+			defer func() { x.atomicOp = false }()
 			return []Value{x.load(p, fn.Signature.Results().At(0).Type())}
 		}
 		m["sync/atomic.Store"+ty] = func(x *Exec, fn *ssa.Function, args []Value) []Value {
 			p := args[0].(Pointer)
+			x.atomicOp = true
+			defer func() { x.atomicOp = false }()
 			x.store(p, args[1], fn.Signature.Params().At(1).Type())
 			return nil
 		}
 		m["sync/atomic.Add"+ty] = func(x *Exec, fn *ssa.Function, args []Value) []Value {
 			p := args[0].(Pointer)
 			t := fn.Signature.Params().At(1).Type()
+			x.atomicOp = true
+			defer func() { x.atomicOp = false }()
 			nv := x.e.C.Add(x.load(p, t).(*smt.Term), args[1].(*smt.Term))
 			x.store(p, nv, t)
 			return []Value{nv}
